@@ -82,6 +82,9 @@ Definition expect_index (t : table) (i : nat) : rres :=
 (* ---- TTL window: e in nanoseconds, TTLs in whole seconds ---- *)
 Definition sec : Z := 1000000000.
 Definition ceil_secs (d : Z) : Z := (d + sec - 1) / sec.
+(* the statement's own numbers (hand-written; Link.v proves the regenerated Go constants equal them):
+   the row stored through an index outlives the index entry by 5 s *)
+Definition safe_gap : Z := 5 * sec.
 (* [ceil(0.95 e), ceil(1.05 e)] for a configured expiry that is a multiple of 20 ns (e = 20 q) *)
 Definition ttl_lo (e : Z) : Z := ceil_secs (19 * (e / 20)).
 Definition ttl_hi (e : Z) : Z := ceil_secs (21 * (e / 20)).
